@@ -42,8 +42,28 @@ IsBad(x) == x.t \in {"err", "oou"}
 \* bool is an int in Python
 AsNum(x) == IF x.t = "bool" THEN Int_(IF x.v THEN 1 ELSE 0) ELSE x
 IsNumLike(x) == x.t \in {"num", "bool"}
-NumLess(a, b) == a.n * b.d < b.n * a.d
-NumEq(a, b) == a.n * b.d = b.n * a.d
+\* Exact order of rationals WITHOUT cross-multiplying: TLC integers are 32-bit and n1 * d2 overflows for long numerals.
+\* FracLess(a, b, c, d): a/b < c/d for a, c >= 0 and b, d > 0 - compare the integer parts, then the reciprocals of the
+\* fractional parts (Euclid's algorithm, so it terminates).
+RECURSIVE FracLess(_, _, _, _)
+FracLess(a, b, c, d) ==
+  LET qa == a \div b
+      qc == c \div d IN
+  IF qa # qc THEN qa < qc
+  ELSE LET ra == a % b
+           rc == c % d IN
+       IF rc = 0 THEN FALSE
+       ELSE IF ra = 0 THEN TRUE
+       ELSE FracLess(d, rc, b, ra)
+NumLess(a, b) == IF a.n < 0 /\ b.n >= 0 THEN TRUE
+                 ELSE IF a.n >= 0 /\ b.n < 0 THEN FALSE
+                 ELSE IF a.n >= 0 THEN FracLess(a.n, a.d, b.n, b.d)
+                 ELSE FracLess(-b.n, b.d, -a.n, a.d)
+NumEq(a, b) == ~NumLess(a, b) /\ ~NumLess(b, a)
+\* arithmetic whose exact result (or an intermediate product) does not fit TLC's integers is outside the specification
+MaxI == 2147483647
+MulOk(x, y) == x = 0 \/ y = 0 \/ AbsI(y) <= MaxI \div AbsI(x)
+AddOk(p, q) == IF p >= 0 THEN q <= MaxI - p ELSE q >= (-MaxI) - p
 
 Truthy(x) ==
   CASE x.t = "bool" -> x.v
@@ -88,7 +108,13 @@ Arith(op, a0, b0) ==
         ELSE Err)
   ELSE LET a == AsNum(a0)
            b == AsNum(b0)
-           fl == a.f \/ b.f IN
+           fl == a.f \/ b.f
+           fits == CASE op \in {"add", "sub"} -> /\ MulOk(a.n, b.d) /\ MulOk(b.n, a.d) /\ MulOk(a.d, b.d)
+                                                /\ AddOk(a.n * b.d, IF op = "add" THEN b.n * a.d ELSE -(b.n * a.d))
+                     [] op = "mult" -> MulOk(a.n, b.n) /\ MulOk(a.d, b.d)
+                     [] op = "div" -> MulOk(a.n, b.d) /\ MulOk(a.d, b.n)
+                     [] OTHER -> TRUE IN
+    IF ~fits THEN Oou ELSE
     CASE op = "add" -> Num(a.n * b.d + b.n * a.d, a.d * b.d, fl)
       [] op = "sub" -> Num(a.n * b.d - b.n * a.d, a.d * b.d, fl)
       [] op = "mult" -> Num(a.n * b.n, a.d * b.d, fl)
